@@ -219,8 +219,10 @@ func (p *pure) push(t *ingest.TypedColumnBatch) view {
 
 func mergeErr(s string) string {
 	switch {
+	case strings.HasPrefix(s, "err:") && strings.Contains(s, "changes type between batches"):
+		return "err:type-conflict"
 	case strings.HasPrefix(s, "panic:") && strings.Contains(s, "interface conversion"):
-		return "err:type-panic"
+		return "err:type-panic" // the pre-d29da22 behaviour; the model now says err:type-conflict
 	case strings.HasPrefix(s, "panic:"):
 		return "err:" + s
 	}
@@ -350,6 +352,9 @@ func (p *pure) opFlush(bs []*ingest.TypedColumnBatch) {
 		}
 		m, err := p.buf.VerifC03MergeBatches(in)
 		if err != nil {
+			if strings.Contains(err.Error(), "changes type between batches") {
+				return "err:type-conflict"
+			}
 			return "err:merge"
 		}
 		n := 0
@@ -492,7 +497,7 @@ func (p *pure) run() {
 	for i := 0; i < 60*scale; i++ {
 		k := vh.Pick(r, []int{1, 2, 2, 3, 5})
 		// union schema with consistent types; each batch takes a subset (sparse columns), sometimes
-		// plus internal columns, sometimes (rarely) an internal column whose type differs → panic
+		// plus internal columns, sometimes (rarely) an internal column whose type differs → merge error
 		full := genSchema(r, true)
 		var bs []*ingest.TypedColumnBatch
 		for j := 0; j < k; j++ {
